@@ -22,6 +22,8 @@ def store_subjects(tier, purpose="general"):
     for cap in caps:
         out.append(S("rs", cap, live=L))
         out.append(S("rps", cap, live=L, prios=pr))
+    out.append(S("rps", 1, live=3, prios=pr))          # three waiting requests: a middle position in the queue exists
+    out.append(S("rpfs", 1, live=3, prios=[0, 1], drain=1, age_cap=0.5))
     # filter store: priorities, user filters, trigger delay; with and without explicit kernel stepping
     out.append(S("rpfs", 2, live=2, prios=[0, 1], drain=1, age_cap=0.5))
     out.append(S("rpfs", 2, live=2, prios=[0], filters=[None, "blue"], colors=["red", "blue"], drain=1, age_cap=0.5))
@@ -106,6 +108,8 @@ def jobs_for(prop, tier):
         ccaps = {"max_states": 9000 if q else 300000, "max_seconds": 900 if q else 3000}
         for sp in conveyor_store_subjects(tier, eager=(prop == "C04")):
             jobs.append({"engine": "S", "prop": prop, "label": sp.label() + "#" + _h(sp), "spec": sp.to_json(), "caps": ccaps})
+        if prop in ("C01", "C06"):
+            jobs += f_jobs(prop, tier)   # "in whole factories" clause
     elif prop in F_FAMILIES:
         jobs = f_jobs(prop, tier)
     if prop == "C05":
@@ -162,6 +166,8 @@ def jobs_for(prop, tier):
 
 
 F_FAMILIES = {
+    "C01": ["lines", "congestion", "diamonds", "conveyors", "combiners"],
+    "C06": ["diamonds", "fans", "splitters", "conveyors"],
     "C03": ["lines", "congestion", "diamonds", "combiners", "splitters"],
     "C08": ["lines", "congestion", "diamonds", "combiners", "splitters"],
     "C09": ["lines", "congestion", "fans", "combiners", "splitters"],
